@@ -15,7 +15,7 @@ import trans
 from common import Rng, REPO
 
 PID = "C01"
-FNS = "TTTSRP"
+FNS = "TTTSRPQQ"   # Q: lou_translatePrehyphenated with hyphen arrays of exactly inlen / outlen bytes
 ELEM = {0: 2, 1: 4, 2: 8, 3: 1, 4: 2, 5: 4, 6: 4, 7: 4}
 
 
